@@ -20,6 +20,7 @@ pub fn l_schema() -> Schema {
                 member_of: vec!["Group".into()],
                 attrs: vec![
                     at("age", Ty::Long, true),
+                    at("name", Ty::Str, true),
                     at("mgr", user(), true),
                     at("info", Ty::Rec(vec![at("boss", user(), false), at("n", Ty::Long, true)]), true),
                     at("alt", user(), false),
@@ -62,6 +63,8 @@ pub fn l_schema() -> Schema {
 fn user_ent(age: i64, mgr: Uid, boss: Option<Uid>, alt: Option<Uid>, tag: Option<Uid>, parents: Vec<Uid>) -> Ent {
     let mut e = Ent::default();
     e.attrs.insert("age".into(), Val::Long(age));
+    // name: a string that doubles as a tag key ("t" is the only tag any user carries)
+    e.attrs.insert("name".into(), Val::Str(if age == 0 { "al".into() } else { "t".into() }));
     // peers: a set of entities (never dereferenceable, but `in` / contains observe it); differs per user
     let peers = match age {
         3 => vec![Val::Uid(ub()), Val::Uid(uc())],
@@ -314,6 +317,26 @@ pub fn policies(tier: Tier) -> Vec<LPol> {
             let ite3 = E::ite(E::bin(BinOp::Gt, E::attr(pr.clone(), "age"), E::Long(1)), E::Ent(uc()), x.clone());
             push(format!("steps{}:if-literal-branch:eq", p.steps), guarded(g, E::bin(BinOp::Eq, ite3.clone(), E::attr(pr.clone(), "mgr"))), p.uses_tags, &mut out);
             push(format!("steps{}:if-literal-branch:age", p.steps), guarded(g, E::bin(BinOp::Gt, E::attr(ite3, "age"), E::Long(0))), p.uses_tags, &mut out);
+            // the path's value at other operand positions: like, computed tag key, arithmetic,
+            // set operations between two dereferences, record equality, extended has
+            let t_key = E::attr(x.clone(), "name");
+            push(format!("steps{}:name-like", p.steps), guarded(g, E::Like(b(t_key.clone()), vec![Pat::Char('t'), Pat::Star])), p.uses_tags, &mut out);
+            push(format!("steps{}:tag-key-from-path:hasTag", p.steps), guarded(g, E::bin(BinOp::HasTag, pr.clone(), t_key.clone())), true, &mut out);
+            push(
+                format!("steps{}:tag-key-from-path:getTag.age", p.steps),
+                guarded(g, E::and(E::bin(BinOp::HasTag, pr.clone(), t_key.clone()), E::bin(BinOp::Gt, E::attr(E::bin(BinOp::GetTag, pr.clone(), t_key.clone()), "age"), E::Long(0)))),
+                true,
+                &mut out,
+            );
+            push(format!("steps{}:arith", p.steps), guarded(g, E::bin(BinOp::Gt, E::bin(BinOp::Add, E::attr(x.clone(), "age"), E::attr(pr.clone(), "age")), E::Long(0))), p.uses_tags, &mut out);
+            push(format!("steps{}:neg-mul", p.steps), guarded(g, E::bin(BinOp::Lt, E::Neg(b(E::bin(BinOp::Mul, E::attr(x.clone(), "age"), E::Long(2)))), E::Long(0))), p.uses_tags, &mut out);
+            push(format!("steps{}:peers-contains-mgr", p.steps), guarded(g, E::bin(BinOp::Contains, E::attr(x.clone(), "peers"), E::attr(x.clone(), "mgr"))), p.uses_tags, &mut out);
+            push(format!("steps{}:mgr.peers-containsAll-peers", p.steps), guarded(g, E::bin(BinOp::ContainsAll, E::attr(E::attr(x.clone(), "mgr"), "peers"), E::attr(x.clone(), "peers"))), p.uses_tags, &mut out);
+            push(format!("steps{}:if-then-deref", p.steps), guarded(g, E::ite(E::bin(BinOp::Gt, E::attr(x.clone(), "age"), E::Long(1)), E::bin(BinOp::Gt, E::attr(E::attr(x.clone(), "mgr"), "age"), E::Long(0)), E::Bool(false))), p.uses_tags, &mut out);
+            push(format!("steps{}:record-eq", p.steps), guarded(g, E::bin(BinOp::Eq, E::attr(x.clone(), "info"), E::attr(pr.clone(), "info"))), p.uses_tags, &mut out);
+            push(format!("steps{}:record-literal-eq", p.steps), guarded(g, E::bin(BinOp::Eq, E::Rec(vec![("a".into(), E::attr(x.clone(), "mgr"))]), E::Rec(vec![("a".into(), pr.clone())]))), p.uses_tags, &mut out);
+            push(format!("steps{}:set-of-derefs-contains", p.steps), guarded(g, E::bin(BinOp::Contains, E::Set(vec![E::attr(x.clone(), "mgr"), pr.clone()]), E::attr(E::attr(x.clone(), "mgr"), "mgr"))), p.uses_tags, &mut out);
+            push(format!("steps{}:extended-has", p.steps), guarded(g, E::and(E::Has(b(x.clone()), vec!["info".into(), "boss".into()]), E::bin(BinOp::Gt, E::attr(E::attr(E::attr(x.clone(), "info"), "boss"), "age"), E::Long(0)))), p.uses_tags, &mut out);
             // shapes that only permissive validation accepts (sets / branches mixing entity types)
             // in front of the dereference chain (after seed C16-a2)
             let rs = E::Var(Var::Resource);
